@@ -1,0 +1,30 @@
+//go:build verif
+
+// Contracts for the verification machinery in /verif (comment only, no code).
+package configs
+
+// ================================================================ C15: hierarchy rules of the validator
+
+// the maximum handed down to the children is the EFFECTIVE maximum: every type bounded by an ancestor stays bounded,
+// at a value not above the ancestor's (and not above the queue's own maximum where it defines the type), so a
+// descendant can never exceed an ancestor through an intermediate queue that omits the type
+//@ func checkQueueResource(cur QueueConfig, parentM *resources.Resource) (g *resources.Resource, err error)
+//@   props C15
+//@   sweep
+//@   mode nopanic=off
+//@   assigns nothing
+//@   loop 1: invariant sumG != nil && fresh(sumG) && sumG.Resources != nil && fresh(sumG.Resources)
+//@   loop 1: invariant forall t Key :: has(parentM, t) ==> has(curM, t) && rv(curM, t) <= rv(parentM, t)
+//@   at[inherits] call configs.checkQueueResource#1: assert forall t Key :: has(parentM, t) ==> has(arg1, t) && rv(arg1, t) <= rv(parentM, t)
+//@   at[ownmaxfits] call resources.ComponentWiseMin#1: assert arg1 == parentM && fitsIn(parentM, arg0)
+//@   at[effective] call resources.ComponentWiseMin#1 after: assert forall t Key :: (has(arg0, t) ==> has(ret, t) && rv(ret, t) <= rv(arg0, t)) && (has(parentM, t) ==> has(ret, t) && rv(ret, t) <= rv(parentM, t))
+//@ spec fitsIn(hr *resources.Resource, r *resources.Resource) bool = forall t Key :: has(r, t) && has(hr, t) ==> rv(r, t) <= (rv(hr, t) < 0 ? 0 : rv(hr, t))
+
+// guaranteed within maximum for one queue
+//@ func checkResourceConfig(cur QueueConfig) (g *resources.Resource, m *resources.Resource, err error)
+//@   props C15
+//@   sweep
+//@   mode nopanic=off
+//@   assigns nothing
+//@   ensures[fresh] err == nil ==> fresh(g) && fresh(m)
+//@   ensures[guaranteedwithinmax] err == nil ==> fitsIn(m, g)
